@@ -54,6 +54,10 @@ def emit_and_replay(ctx, module, cfg, env, label, probe_every, tag="POS", timeou
     for p in parts:
         if os.path.exists(p):
             os.remove(p)
+    drift = tot["counts"].get("drift_entries", 0) + tot["counts"].get("drift_pins", 0)
+    ctx.cov["model_drift"] += drift
+    if drift:
+        ctx.note("%s: layer S disagrees with the implementation on %d positions (entry list / pin set): model drift, not a violation" % (label, drift))
     ctx.cov["states"] += res["distinct"]
     ctx.cov["transitions"] += res["generated"]
     ctx.cov["evaluations"] += tot["lines"]
@@ -154,7 +158,7 @@ def board_pipeline(ctx, bfs, walks, families=()):
     pe = PROBE_EVERY[ctx.tier]
     for label, indices, depth in bfs:
         sel = write_sel(ctx, indices, label)
-        emit_and_replay(ctx, "ChessMC", "ChessMC_emit.cfg",
+        emit_and_replay(ctx, "ChessMC", "ChessMC_emitsys.cfg" if ctx.prop in ("C01", "C03") else "ChessMC_emit.cfg",
                         {"VERIF_DEPTH": depth, "VERIF_ROOTSEL": sel}, label, pe)
     for label, cfg, env in families:
         emit_and_replay(ctx, "Families", cfg, env, label, pe)
@@ -167,3 +171,22 @@ def board_pipeline(ctx, bfs, walks, families=()):
         "the projection code in harness/src/proj.rs and the cfg-guarded read-only hooks report the implementation's state faithfully",
         "spec/roots.json is the translation of spec/roots.txt by lib/mkroots.py (bound at run time: the parsed root must project to the same record)",
     ]
+
+
+def sys_model_check(ctx, indices, depth, label="layer-S"):
+    """layer S (MoveGenSys: the generator and the incremental check/pin bookkeeping as implemented)
+    against layer R on the game state machine: GeneratorExact, EntriesDisjoint, Capacity, CachesExact,
+    IncrementalExact.  A violation here is a statement about the modelled algorithm; the model is tied
+    to the code by the entry-list / cache conformance (drift) of the replay steps."""
+    sel = write_sel(ctx, indices, label)
+    res = ctx.tlc("MoveGenSysMC", "MoveGenSysMC.cfg", env={"VERIF_DEPTH": depth, "VERIF_ROOTSEL": sel}, workers=NCPU,
+                  timeout=3000, name=label)
+    if res["violated"]:
+        ctx.violation("layer-S-model: " + res["violated"][0][:120], {"tlc": res["violated"][:3]},
+                      {"kind": "tlc", "module": "MoveGenSysMC", "cfg": "MoveGenSysMC.cfg"})
+    elif res["errors"]:
+        raise ToolError("MoveGenSysMC failed: %s" % res["errors"][:3])
+    ctx.cov["states"] += res["distinct"]
+    ctx.cov["transitions"] += res["generated"]
+    ctx.cov["steps"].append({"step": "layer S model check (MoveGenSys vs Chess)", "distinct": res["distinct"], "depth": depth})
+    os.remove(res["out_path"])
